@@ -162,6 +162,7 @@ func main() {
 	regress, _ := filepath.Glob(filepath.Join(verifDir, "replay", "regress", id+"-*.json"))
 	sort.Strings(regress)
 	replayed := 0
+	listed := map[string]bool{}
 	for _, k := range known {
 		if k.Replay == "" {
 			continue
@@ -170,6 +171,7 @@ func main() {
 		if !filepath.IsAbs(p) {
 			p = filepath.Join(verifDir, p)
 		}
+		listed[p] = true
 		out, vs, ks := runReplay(id, cfg, bin, p)
 		replayed++
 		if k.Status == "open" {
@@ -192,6 +194,9 @@ func main() {
 		_ = out
 	}
 	for _, p := range regress {
+		if listed[p] {
+			continue
+		}
 		_, vs, _ := runReplay(id, cfg, bin, p)
 		replayed++
 		for _, v := range vs {
@@ -492,6 +497,15 @@ func main() {
 	os.Exit(0)
 }
 
+func fnv64(s string) uint64 {
+	var h uint64 = 14695981039346656037
+	for i := 0; i < len(s); i++ {
+		h ^= uint64(s[i])
+		h *= 1099511628211
+	}
+	return h
+}
+
 func dedup(in []string) []string {
 	seen := map[string]bool{}
 	var out []string
@@ -533,20 +547,26 @@ func loadCfg(id string) checkCfg {
 }
 
 func loadKnown(id string) []knownEntry {
-	b, err := os.ReadFile(filepath.Join(verifDir, "known_findings.json"))
-	if err != nil {
-		return nil
-	}
-	var f struct {
-		Findings []knownEntry `json:"findings"`
-	}
-	if json.Unmarshal(b, &f) != nil {
-		return nil
-	}
+	files := []string{filepath.Join(verifDir, "known_findings.json")}
+	more, _ := filepath.Glob(filepath.Join(verifDir, "known_findings.d", "*.json"))
+	sort.Strings(more)
+	files = append(files, more...)
 	var out []knownEntry
-	for _, e := range f.Findings {
-		if e.Property == id {
-			out = append(out, e)
+	for _, fn := range files {
+		b, err := os.ReadFile(fn)
+		if err != nil {
+			continue
+		}
+		var f struct {
+			Findings []knownEntry `json:"findings"`
+		}
+		if json.Unmarshal(b, &f) != nil {
+			continue
+		}
+		for _, e := range f.Findings {
+			if e.Property == id {
+				out = append(out, e)
+			}
 		}
 	}
 	return out
@@ -560,6 +580,18 @@ func build(id string, cfg checkCfg, race bool) string {
 	}
 	out := filepath.Join(verifDir, ".build", name)
 	a := []string{"test", "-c", "-tags", "verif", "-vet=off", "-o", out}
+	if alt := os.Getenv("VERIF_REPO"); alt != "" && alt != "/repo" {
+		// development aid: build against a scratch worktree instead of /repo
+		mod, _ := os.ReadFile(filepath.Join(verifDir, "go.mod"))
+		sum, _ := os.ReadFile(filepath.Join(verifDir, "go.sum"))
+		tag := fmt.Sprintf("%x", fnv64(alt))
+		mf := filepath.Join(verifDir, ".build", "go."+tag+".mod")
+		os.WriteFile(mf, bytes.ReplaceAll(mod, []byte("=> /repo"), []byte("=> "+alt)), 0o644)
+		os.WriteFile(filepath.Join(verifDir, ".build", "go."+tag+".sum"), sum, 0o644)
+		a = append(a, "-modfile="+mf)
+		out = filepath.Join(verifDir, ".build", tag+"-"+name)
+		a[6] = out
+	}
 	if race {
 		a = append(a, "-race")
 	}
